@@ -173,6 +173,8 @@ fn main() {
                     "f" => Op::Flush,
                     "c" => Op::Compact(None, None),
                     "r" => Op::Reopen(n()),
+                    "i" => Op::Iter,
+                    "R" => Op::ReopenUnderLiveIter,
                     _ => Op::Quiesce,
                 };
                 let r = w.apply(&op);
